@@ -140,7 +140,7 @@ func (p *Proj) coq() string {
 	} else if p.Panic == -2 {
 		pan = lib.CoqSome(lib.CoqN(999999))
 	}
-	return lib.CoqApp("mkProj", internal, lib.CoqList(is), lib.CoqList(as), pan, lib.CoqBool(p.Interrupt))
+	return lib.CoqApp("mkProj", internal, lib.CoqList(is), lib.CoqList(as), pan, lib.CoqBool(p.Interrupt), lib.CoqStrList(p.MsgPath))
 }
 
 func (o *Obs) coq() string {
